@@ -1,12 +1,12 @@
 package main
 
 import (
-	"unicode/utf8"
-	"unicode"
 	"crypto/sha256"
 	"crypto/sha512"
 	"errors"
 	"strings"
+	"unicode"
+	"unicode/utf8"
 
 	"github.com/wollac/iota-crypto-demo/pkg/bip39"
 	"golang.org/x/text/unicode/norm"
